@@ -265,3 +265,22 @@ Theorem C10_snapshot_members_trace :
   others (node_of 3 g_snap) = [1; 2].
 Proof. exact snapshot_members_trace. Qed.
 Print Assumptions C10_snapshot_members_trace.
+
+(* the member set after the install of a received snapshot: the snapshot's member set without this
+   node and, when the log's suffix is kept, the kept membership entries behind the snapshot's
+   position applied on top of it in order *)
+Theorem C10_install_members :
+  forall (e : env) (from : nid) (t c : N) (p : snap_part) (n : node) (sn : snapshot),
+  term n <= t -> recv_snapshot p (sr n) = Some (Good sn) ->
+  s_ver sn <= self_ver n -> applied n < eidx (s_e1 sn) ->
+  let n' := nd (on_message e from (AESnap t c p) n) in
+  let base := filter (fun x => negb (self_is x n)) (s_cluster sn) in
+  others n' =
+    (if dyn (cf e)
+     then if snap_kept sn (log n)
+          then fold_left (step_member (self n))
+                 (mem_ops (get_entries (log n') (Some (eidx (s_e1 sn) + 1)) None None)) base
+          else base
+     else others n).
+Proof. exact install_members. Qed.
+Print Assumptions C10_install_members.
